@@ -54,6 +54,7 @@ func checkC14(w *World, r *Report) {
 	r.Assume = []string{"C13: the metadata store is a compare-and-set map whose versions are never 0"}
 	c14Create(w, r)
 	c14Listing(w, r)
+	c14KeyShape(w, r)
 	c14RestoreRecord(w, r)
 	c14Seq(w, r)
 	c14Dir(w, r, "C14.c", "c-fresh-directory")
